@@ -31,11 +31,16 @@ type c14ColdCase struct {
 	Order    string `json:"order"`     // descending | shuffled | nine-one | ascending (control)
 	PermSeed uint64 `json:"perm_seed"` // shuffled: permutation of the weights 1..Blocks
 	LibVers  []uint `json:"libvers"`   // library version used by goroutine i (len = goroutines)
-	Fam      string `json:"fam"`       // v4 | v6
-	PerG     int    `json:"per_goroutine"`
-	Rounds   int    `json:"rounds"`
-	SeedBase vh.Hex `json:"seed_base"`
-	SeedLen  int    `json:"seed_len"`
+	// Fails[i] (optional, len = goroutines): "" = an ordinary selection; otherwise goroutine i makes
+	// selections that are expected to be refused: unknown (generation 3), unknown2 (77777), gen0
+	// (generation 0, not configured), zero-weight (a generation whose weights are all 0), no-family
+	// (a generation holding only the other family)
+	Fails    []string `json:"fails,omitempty"`
+	Fam      string   `json:"fam"` // v4 | v6
+	PerG     int      `json:"per_goroutine"`
+	Rounds   int      `json:"rounds"`
+	SeedBase vh.Hex   `json:"seed_base"`
+	SeedLen  int      `json:"seed_len"`
 }
 
 const c14ColdGen = 957
@@ -83,8 +88,16 @@ func (c c14ColdCase) selector(w []uint32) *c14Built {
 			Subnets: []string{fmt.Sprintf("10.%d.%d.0/24", i/256, i%256), fmt.Sprintf("2001:db8:%x::/64", i+1)}})
 	}
 	sc := &SubnetConfig{WeightedSubnets: ws}
-	return &c14Built{sel: &PhantomIPSelector{Networks: map[uint]*SubnetConfig{c14ColdGen: sc}},
-		lists: map[uint]*pb.PhantomSubnetsList{c14ColdGen: {WeightedSubnets: ws}}}
+	zero, one := uint32(0), uint32(1)
+	zw := []*pb.PhantomSubnets{{Weight: &zero, Subnets: []string{"10.200.0.0/16", "2001:db8:c800::/64"}}, {Subnets: []string{"10.201.0.0/16", "2001:db8:c801::/64"}}}
+	other := "2001:db8:c802::/64" // the family that is NOT requested in this case
+	if c.Fam == c14FamV6 {
+		other = "10.202.0.0/16"
+	}
+	nf := []*pb.PhantomSubnets{{Weight: &one, Subnets: []string{other}}}
+	return &c14Built{sel: &PhantomIPSelector{Networks: map[uint]*SubnetConfig{c14ColdGen: sc,
+		c14GenZeroWeight: {WeightedSubnets: zw}, c14GenV4Only: {WeightedSubnets: nf}}},
+		lists: map[uint]*pb.PhantomSubnetsList{c14ColdGen: {WeightedSubnets: ws}, c14GenZeroWeight: {WeightedSubnets: zw}, c14GenV4Only: {WeightedSubnets: nf}}}
 }
 
 func (c c14ColdCase) query(round, g, k int) c14Query {
@@ -100,11 +113,26 @@ func (c c14ColdCase) query(round, g, k int) c14Query {
 		h.Write([]byte{blk})
 		seed = h.Sum(seed)
 	}
+	gen := uint(c14ColdGen)
+	if g < len(c.Fails) {
+		switch c.Fails[g] {
+		case "unknown":
+			gen = 3
+		case "unknown2":
+			gen = 77777
+		case "gen0":
+			gen = 0
+		case "zero-weight":
+			gen = c14GenZeroWeight
+		case "no-family":
+			gen = c14GenV4Only
+		}
+	}
 	lv := c.LibVers[g]
 	if lv == 99 { // the client entry point
-		return c14Query{Entry: c14EntryClientW, Seed: seed[:c.SeedLen], Gen: c14ColdGen, Fam: c.Fam}
+		return c14Query{Entry: c14EntryClientW, Seed: seed[:c.SeedLen], Gen: gen, Fam: c.Fam}
 	}
-	return c14Query{Entry: c14EntrySelect, Seed: seed[:c.SeedLen], Gen: c14ColdGen, LibVer: lv, Fam: c.Fam}
+	return c14Query{Entry: c14EntrySelect, Seed: seed[:c.SeedLen], Gen: gen, LibVer: lv, Fam: c.Fam}
 }
 
 func c14GenCold(rt *rapid.T) c14ColdCase {
@@ -135,6 +163,18 @@ func c14GenCold(rt *rapid.T) c14ColdCase {
 			lv = []uint{2, 4, 3, 99}[i%4]
 		}
 		c.LibVers = append(c.LibVers, lv)
+	}
+	// refused selections mixed into the crew (3 in 4 cases): every second / third / every goroutine
+	if !c14Rarely(rt, 4, "nofails") {
+		stride := rapid.SampledFrom([]int{2, 3, 1, 4}).Draw(rt, "failstride")
+		kinds := []string{"unknown", "gen0", "unknown", "zero-weight", "unknown2", "no-family"}
+		off := rapid.IntRange(0, len(kinds)-1).Draw(rt, "failoff")
+		c.Fails = make([]string, g)
+		for i := 0; i < g; i++ {
+			if i%stride == 0 {
+				c.Fails[i] = kinds[(off+i/stride)%len(kinds)]
+			}
+		}
 	}
 	c.Fam = rapid.SampledFrom([]string{c14FamV4, c14FamV6}).Draw(rt, "fam")
 	c.PerG = rapid.SampledFrom([]int{1, 1, 2, 3}).Draw(rt, "perG")
@@ -172,8 +212,30 @@ func c14CheckCold(t vh.Fataler, rec *vh.Rec, c c14ColdCase, rounds int) {
 	if c.Blocks >= 64 {
 		classes = append(classes, "many-blocks")
 	}
+	if len(c.Fails) != 0 && len(c.Fails) != g {
+		t.Fatalf("harness problem: malformed cold-start case (fails)")
+	}
+	nFail, nUnk := 0, 0
+	for _, f := range c.Fails {
+		if f != "" {
+			nFail++
+		}
+		if f == "unknown" || f == "unknown2" || f == "gen0" {
+			nUnk++
+		}
+	}
+	if nFail > 0 && nFail < g {
+		classes = append(classes, "refusals-mixed-with-addresses")
+	}
+	if nUnk >= 2 {
+		classes = append(classes, "unknown-generation-refusals")
+	}
+	if nFail == g {
+		classes = append(classes, "all-refused")
+	}
 	rec.Case(g >= 2 && c.Blocks >= 2 && nonAsc, vh.Digest(c), c, classes...)
 
+	c14InFlight("coldstart", c)
 	refSel := c.selector(w) // used by this goroutine only, and only while no other selection runs
 	type slot struct {
 		q   c14Query
@@ -235,9 +297,9 @@ func c14CheckCold(t vh.Fataler, rec *vh.Rec, c c14ColdCase, rounds int) {
 }
 
 func TestVerif_C14_coldstart(t *testing.T) {
-	rec := vh.NewRec("C14", "coldstart", "4 fixed cases (64 shuffled blocks x 16 legacy goroutines; 400 descending x mixed; 2 blocks 9,1 x 16 libver-0; 128 shuffled x libver >= 2 and client entry) then rapid: a generation of 2-400 weighted blocks (one /24 and one /64 each) whose weights are listed shuffled / descending / 9,1,9,1 (now and then ascending, as a control), G in {2,4,8,16,32} goroutines with library versions all 0/1, mixed 0-4 + client entry point, or all >= 2; every round builds a brand-new selector, releases the goroutines together for their first 1-3 selections on it and compares each result (error-ness, address bytes, port flag) with the same selection made single-threaded on a separate selector. one evaluation = one case of 10-60 (thorough 40-400) rounds; non-trivial = >= 2 goroutines, >= 2 blocks, weights not ascending; distinct = distinct case. Schedules are stress-sampled; the unit runs under the race detector.")
+	rec := vh.NewRec("C14", "coldstart", "6 fixed cases (a crew half of which / all of which is expected to be refused: unknown generation 3, 0, 77777, zero-weight-only generation, generation without a subnet of the family; 64 shuffled blocks x 16 legacy goroutines; 400 descending x mixed; 2 blocks 9,1 x 16 libver-0; 128 shuffled x libver >= 2 and client entry) then rapid: a generation of 2-400 weighted blocks (one /24 and one /64 each) whose weights are listed shuffled / descending / 9,1,9,1 (now and then ascending, as a control), G in {2,4,8,16,32} goroutines with library versions all 0/1, mixed 0-4 + client entry point, or all >= 2, in 3 of 4 cases with every 1st-4th goroutine making selections that are expected to be refused; every round builds a brand-new selector, releases the goroutines together for their first 1-3 selections on it and compares each result (error-ness, address bytes, port flag) with the same selection made single-threaded on a separate selector. one evaluation = one case of 10-60 (thorough 40-400) rounds; non-trivial = >= 2 goroutines, >= 2 blocks, weights not ascending; distinct = distinct case. Schedules are stress-sampled; the unit runs under the race detector.")
 	defer rec.Flush()
-	rec.Require("non-ascending-weights", "legacy-libver", "hkdf-libver", "many-blocks", "G:16")
+	rec.Require("non-ascending-weights", "legacy-libver", "hkdf-libver", "many-blocks", "G:16", "refusals-mixed-with-addresses", "unknown-generation-refusals", "all-refused")
 	if p := vh.ReplayFile(); p != "" {
 		var c c14ColdCase
 		if _, _, err := vh.LoadReplay(p, &c); err != nil {
@@ -263,6 +325,12 @@ func TestVerif_C14_coldstart(t *testing.T) {
 			{Blocks: 400, Order: "descending", LibVers: crew(16, 1, 0, 2, 4, 99), Fam: c14FamV6, PerG: 1, Rounds: r, SeedBase: base, SeedLen: 32},
 			{Blocks: 2, Order: "nine-one", LibVers: crew(16, 0), Fam: c14FamV4, PerG: 1, Rounds: r, SeedBase: base, SeedLen: 16},
 			{Blocks: 128, Order: "shuffled", PermSeed: 7, LibVers: crew(16, 2, 3, 4, 99), Fam: c14FamV4, PerG: 2, Rounds: r, SeedBase: base, SeedLen: 16},
+			// refusals in the crew: half of the goroutines ask for generations that are not configured
+			// (3, 0, 77777), have no weight or no subnet of the family; then a crew that is refused throughout
+			{Blocks: 16, Order: "descending", LibVers: crew(16, 0, 2, 1, 4), Fam: c14FamV4, PerG: 2, Rounds: r, SeedBase: base, SeedLen: 16,
+				Fails: []string{"unknown", "", "gen0", "", "unknown2", "", "zero-weight", "", "no-family", "", "unknown", "", "gen0", "", "unknown", ""}},
+			{Blocks: 8, Order: "shuffled", PermSeed: 3, LibVers: crew(16, 2, 1, 0, 3, 99), Fam: c14FamV6, PerG: 1, Rounds: r, SeedBase: base, SeedLen: 16,
+				Fails: []string{"unknown", "unknown", "gen0", "unknown2", "unknown", "zero-weight", "no-family", "gen0", "unknown", "unknown2", "unknown", "gen0", "zero-weight", "unknown", "no-family", "unknown"}},
 		} {
 			c14CheckCold(t, rec, c, c.Rounds)
 		}
